@@ -19,6 +19,8 @@ AREAS = {
                  "explain": "imodel", "default_case": "(ISendCase (mkICfg true true false false false) (mkEnv [] 0) 0 0 IPanic)"},
     "syncloop": {"branches": [2, 3, 7, 102, 103, 107], "shard": 12,
                  "explain": "lexplain", "default_case": "(mkLC (mkICfg true true false false false) (mkEnv [] 0) [] 0 [] (mkEnv [] 0))"},
+    "fleet": {"branches": [3], "shard": 40,
+              "explain": "fexplain", "default_case": "(mkFC [] [])"},
 }
 
 PROPS = {
@@ -64,6 +66,15 @@ PROPS = {
     "C09": {"seed": 9, "areas": [("syncloop", 144)], "thorough_mult": 6,
             "assumptions": ["known finding F8 (C09_refuted)", "Store failures below the retry budget (StorageRetryCount) are retried; exhausting it makes the loop return (the process restarts and uploads at start-up)"],
             "trusted_base": [LMDB_TRUST, "Instance/Ids.v + Instance/SyncLoop.v as for C03"]},
+    "C01": {"seed": 1, "areas": [("fleet", 160), ("merge", 300), ("syncloop", 60)], "thorough_mult": 6,
+            "assumptions": ["tomb sweeper disabled (cutoff 0), as the property states",
+                            "applications are monotone per key per instance (a write is at least as new as what the instance holds); in shadow mode instances share one monotone clock (documented operating assumption)",
+                            "quiescent = every instance uploaded after its last write and merged such a snapshot of every instance; C09 supplies the first half on the real loop",
+                            "the refinement from LoadOnce/SendOnce to the Fleet steps is proved per DBI (C01_refine_load / C01_refine_send) and validated end to end on real fleets by the correspondence (native mode) and the convergence oracle (both modes)"],
+            "trusted_base": [LMDB_TRUST, "modelled: Fleet (logical stores), the per-DBI refinement of strategy.Update + NativeIterator.Merge, dump entries"]},
+    "C04": {"seed": 4, "areas": [("fleet", 120), ("merge", 300), ("retention", 60)], "thorough_mult": 6,
+            "assumptions": ["retention part (C04_retention.v): 0 <= RetentionDuration() < 2^63 ns, clock values in 1970..2262; RetentionDuration() (a float32 product) is an input computed by Go; negative / overflowing retention_days is outside the claim (the configuration is not validated by /repo)"],
+            "trusted_base": [LMDB_TRUST, "modelled: NativeIterator.Merge stale-marker rule, Retention arithmetic, Fleet joins, capture/dump theorems of C11/C06"]},
 }
 
 # fragments: bin/props.d/*.py may define AREAS_ADD / PROPS_ADD
